@@ -101,25 +101,47 @@ fn period_case(ctx: &mut Ctx, cs: &CrystalSetup, lp: f64, ls: f64, ths: f64, phs
       let pp = PeriodicPoling::new(p, Apodization::Off);
       let d = dkz(&signal, &pump, cs, &pp);
       let phase = d.abs() * len / 2.0;
-      ctx.s("C04.period", phase < 1e-3, "period/phasematch", &format!("{} period={:e} dkz={:e} half_phase={:e} z_unpoled={:e}", what, v, d, phase, z));
+      // a period returned AT the upper bound L is the bound, not an optimum: own signature
+      let clamped = v.abs() >= len * (1.0 - 1e-12);
+      ctx.s(
+        "C04.period",
+        phase < 1e-3,
+        if phase < 1e-3 { "period/phasematch" } else if clamped { "period/phasematch/clamped-at-length" } else { "period/phasematch/not-converged" },
+        &format!("{} period={:e} dkz={:e} half_phase={:e} z_unpoled={:e} over_um={:.4}", what, v, d, phase, z, (TAU / z.abs() - len) * 1e6),
+      );
       ctx.s("C04.period", (v < 0.0) == (z < 0.0), "period/sign", &format!("{} period={:e} z_unpoled={:e}", what, v, z));
       ctx.s("C04.period", v.abs() <= len, "period/le-length", &format!("{} period={:e}", what, v));
       if collinear {
         let want = TAU / z.abs();
-        ctx.s("C04.period", (v.abs() - want).abs() <= 1e-6 * want, "period/collinear-closed-form", &format!("{} period={:e} want={:e}", what, v, want));
+        let okc = (v.abs() - want).abs() <= 1e-6 * want;
+        ctx.s(
+          "C04.period",
+          okc,
+          if okc || !clamped { "period/collinear-closed-form" } else { "period/collinear-closed-form/clamped-at-length" },
+          &format!("{} period={:e} want={:e} over_um={:.4}", what, v, want, (want - len) * 1e6),
+        );
       }
     }
     Some(Err(_)) => {
       ctx.count("period/outcome/err");
       if collinear {
-        ctx.count(if TAU / z.abs() > len { "period/err/too-long-collinear" } else { "period/err/matchable-collinear" });
+        ctx.count(if TAU / z.abs() > len { "period/err/needed-longer-than-L" } else { "period/err/needed-within-L" });
       }
     }
   }
-  // no period ≤ L can phase-match (collinear: the only zero of Δkz is 2π/|z|) ⇒ Err
-  if collinear && TAU / z.abs() > len * (1.0 + 1e-9) {
+  // "no period up to the crystal length can phase-match" ⇒ Err.  Decidable for a collinear signal: Δkz(Λ) = z − 2π/(±Λ)
+  // is monotone in Λ, its zero 2π/|z| lies beyond L, so the best admissible period is L itself; if even that leaves
+  // |Δkz|·L/2 ≥ 1e-3 nothing admissible phase-matches.
+  if collinear && TAU / z.abs() > len && (z.abs() - TAU / len).abs() * len / 2.0 >= 1e-3 {
     ctx.count("period/unmatchable-collinear");
-    ctx.s("C04.period", matches!(r, Some(Err(_))), "period/err-when-too-long", &format!("{} z_unpoled={:e} needed={:e}", what, z, TAU / z.abs()));
+    let over = (TAU / z.abs() - len) * 1e6;
+    let ok = matches!(r, Some(Err(_)));
+    ctx.s(
+      "C04.period",
+      ok,
+      if ok || over > 1.0001 { "period/err-when-unmatchable" } else { "period/err-when-unmatchable/clamped-at-length" },
+      &format!("{} z_unpoled={:e} needed={:e} over_um={:.4}", what, z, TAU / z.abs(), over),
+    );
   }
 }
 
@@ -260,11 +282,32 @@ pub fn run(ctx: &mut Ctx) {
           let mut cs2 = cs.clone();
           cs2.theta = auto * RAD;
           if dkz(&sg, &pu, &cs2, &PeriodicPoling::Off).abs() * length / 2.0 < 1e-3 {
-            let delta = ctx.rng.log_range(1e-7, 3e-2) * if ctx.rng.coin() { 1.0 } else { -1.0 };
+            let dir = if ctx.rng.coin() { 1.0 } else { -1.0 };
+            let delta = ctx.rng.log_range(1e-7, 3e-2) * dir;
             cs2.theta = (auto + delta) * RAD;
             ctx.count("period/targeted-near-phasematching");
             let ths2 = if ctx.rng.coin() { 0.0 } else { ths };
             period_case(ctx, &cs2, lp, ls, ths2, phs);
+            // edge: the needed period 2π/|z| placed at L + u µm, u ∈ {−0.5, 0.2, 0.7, 1.5} (bisection on the angle)
+            let u = *ctx.rng.pick(&[-0.5e-6, 0.2e-6, 0.7e-6, 1.5e-6]);
+            let target = TAU / (length + u);
+            let zat = |d: f64| {
+              let mut c = cs.clone();
+              c.theta = (auto + dir * d) * RAD;
+              dkz(&sg, &pu, &c, &PeriodicPoling::Off).abs()
+            };
+            if zat(0.05) > target {
+              let (mut a, mut b) = (0.0, 0.05);
+              for _ in 0..100 {
+                let m = 0.5 * (a + b);
+                if zat(m) < target { a = m } else { b = m }
+              }
+              if (zat(a) - target).abs() <= 1e-7 * target {
+                cs2.theta = (auto + dir * a) * RAD;
+                ctx.count(&format!("period/edge/needed-minus-L={:+.1}um", u * 1e6));
+                period_case(ctx, &cs2, lp, ls, 0.0, phs);
+              }
+            }
           }
         }
       }
